@@ -2238,3 +2238,15 @@ M('C09','ontwin-helper-overwrites-membership-after-update','ads/map_impl.go',"""
 
 	return has, nil
 }""",'size/accounting', base='C09-22')
+M('C16','ontwin-start-serialiser-released-at-once','runtime/workerpool/workerpool.go',"""	w.startMutex.Lock()
+	defer w.startMutex.Unlock()
+""","""	w.startMutex.Lock()
+	w.startMutex.Unlock()
+""",'start/test-and-set-one-section', base='C16-22')
+M('C16','start-waits-for-previous-run-outside-the-lock','runtime/workerpool/workerpool.go',"""	if !w.isRunning {
+		w.ShutdownComplete.Wait()
+""","""	if !w.isRunning {
+		w.mutex.Unlock()
+		w.ShutdownComplete.Wait()
+		w.mutex.Lock()
+""",'start/test-and-set-one-section')
